@@ -58,10 +58,19 @@ theorem intHi_reflect (F : Fns ℝ) (d : Params ℝ) : intHi F (reflect d) = - i
   unfold intLo intHi reflect; ring
 
 /-- **reflection of the integrated curve**: at every refinement level `i` the value the code would
-return for `D'` (`minimize = ¬m`) is minus the value for `D` (`minimize = m`) — *including* the
-`1[y>0]` term — provided no grid point is exactly `0`.  (The two loops may still stop at different
-`i` by rounding, which is why the property allows 2e-4 of the scale.) -/
+return for `D'` (`minimize = ¬m`) is minus the value for `D` (`minimize = m`), with no side condition.
+(The two loops may still stop at different `i` by rounding, which is why the property allows 2e-4 of
+the scale.) -/
 theorem avg_reflect {F : Fns ℝ} (hF : Lawful F) (hS : Symm F) (d : Params ℝ) (hab : d.a < d.b) (m : Bool)
+    (nn : ℝ) (i : ℕ) :
+    valueRep F.n F.pow (cdf F (reflect d)) (!m) nn (intLo F (reflect d)) (intHi F (reflect d)) i
+      = - valueRep F.n F.pow (cdf F d) m nn (intLo F d) (intHi F d) i := by
+  rw [intLo_reflect, intHi_reflect, n_eq_cast hF]
+  apply valueRep_reflect
+  intro x; rw [cdf_reflect hF hS d hab x]; ring
+
+/-- LEGACY (pre-867c66b integrand, with the `1[y>0]` term): reflection needed "no grid point is exactly `0`" -/
+theorem avgLegacy_reflect {F : Fns ℝ} (hF : Lawful F) (hS : Symm F) (d : Params ℝ) (hab : d.a < d.b) (m : Bool)
     (nn : ℝ) (i : ℕ)
     (h0 : ∀ k : ℕ, k ≤ 2^i → intHi F d - k * Trap.h (intLo F d) (intHi F d) i ≠ 0) :
     valueCur F.n F.pow (cdf F (reflect d)) (!m) nn (intLo F (reflect d)) (intHi F (reflect d)) i
@@ -81,7 +90,7 @@ theorem intHi_affine {F : Fns ℝ} (d : Params ℝ) (hab : d.a < d.b) :
   have hne : d.b - d.a ≠ 0 := (sub_pos.mpr hab).ne'
   unfold intHi std0; simp only; field_simp; ring
 
-/-- **location–scale equivariance of the repaired integrand** (integrate `1 − Fⁿ` resp. `(1−F)ⁿ` from
+/-- **location–scale equivariance of the code's integrated curve** (integrate `1 − Fⁿ` resp. `(1−F)ⁿ` from
 `lo`): at every refinement level the value for `D` is `a + (b−a)` times the value for `D₀` -/
 theorem avgRep_affine {F : Fns ℝ} (hF : Lawful F) (hQ : SqrtScale F) (d : Params ℝ) (hab : d.a < d.b)
     (m : Bool) (nn : ℝ) (i : ℕ) :
@@ -90,10 +99,10 @@ theorem avgRep_affine {F : Fns ℝ} (hF : Lawful F) (hQ : SqrtScale F) (d : Para
   rw [intLo_affine d hab, intHi_affine d hab, n_eq_cast hF]
   exact valueRep_affine F.pow (cdf F d) (cdf F (std0 d)) d.a (d.b - d.a) (cdf_affine hF hQ d hab) m nn _ _ i
 
-/-- **`_partial`**: the integrand the code uses (with `1[y>0]`) gives the same value as the repaired one
-only when `0` is not inside the integration range of the instance: `0 < a − 6o` or `b + 6o ≤ 0`.
-`D₀ = (0, 1, c, s)` never satisfies this (its range is `[−6s, 1+6s] ∋ 0`), so the location–scale
-equivariance of the code's integrated curve is **not** a theorem — its failure is finding F4. -/
+/-- the repair 867c66b is conservative: the legacy integrand (with `1[y>0]`) gave the same value as the code's
+whenever `0` is not inside the integration range of the instance: `0 < a − 6o` or `b + 6o ≤ 0`.
+(`D₀ = (0, 1, c, s)` never satisfies this — its range is `[−6s, 1+6s] ∋ 0` — and there the legacy values
+were not location–scale equivariant: finding F4.) -/
 theorem avgCur_eq_avgRep_partial {F : Fns ℝ} (hF : Lawful F) (d : Params ℝ) (hab : d.a ≤ d.b) (ho : 0 ≤ d.o)
     (m : Bool) (nn : ℝ) (i : ℕ) (h : 0 < intLo F d ∨ intHi F d ≤ 0) :
     valueCur F.n F.pow (cdf F d) m nn (intLo F d) (intHi F d) i
@@ -103,7 +112,7 @@ theorem avgCur_eq_avgRep_partial {F : Fns ℝ} (hF : Lawful F) (d : Params ℝ) 
   rw [n_eq_cast hF]
   exact valueCur_eq_valueRep_partial F.pow (cdf F d) m nn _ _ i hlh h
 
-/-- two instances of the same family whose integration ranges both avoid `0` (`_partial`) -/
+/-- LEGACY: two instances of the same family whose integration ranges both avoid `0` -/
 theorem avgCur_shift_partial {F : Fns ℝ} (hF : Lawful F) (hQ : SqrtScale F) (d : Params ℝ) (hab : d.a < d.b)
     (ho : 0 ≤ d.o) (t : ℝ) (m : Bool) (nn : ℝ) (i : ℕ)
     (h : 0 < intLo F d ∨ intHi F d ≤ 0) (h' : 0 < intLo F d + t ∨ intHi F d + t ≤ 0) :
